@@ -22,7 +22,7 @@ SMALL = os.path.join(rv.VERIF, "harness_small")
 USIZE_MAX = (1 << 64) - 1
 SAT = 1 << 30
 # one harness process runs all drivers of a suite in a few seconds; one that takes this long hangs (a result, not a tool error)
-HARNESS_TIMEOUT = int(os.environ.get("RV_SMALL_TIMEOUT", "150"))
+HARNESS_TIMEOUT = int(os.environ.get("RV_SMALL_TIMEOUT", "60"))
 
 ENGINE = {
     "C14": dict(sub="buf", module="TraceBuffer", cfg="TraceBuffer.cfg"),
@@ -678,7 +678,8 @@ def run_suite(prop, name, drivers, profile, tier, seed):
     viol.sort(key=lambda v: 0 if json.dumps(v["driver"]) in vd else 1)
     res = {"suite": name, "profile": profile, "drivers": len(drivers), "events": val["events"], "viol": viol,
            "drift": drift, "stats": stats, "died": died, "t_harness": round(t_h, 1), "t_validate": round(t_v, 1),
-           "samples": [drivers[0]["id"], drivers[len(drivers) // 2]["id"]], "viol_drivers": vd}
+           "samples": [{"id": d["id"], "cfg": d["cfg"], "ops_total": len(d["ops"]), "first_ops": d["ops"][:6]}
+                       for d in (drivers[0], drivers[len(drivers) // 2])], "viol_drivers": vd}
     log("suite %s/%s (%s): %d drivers, %d events, %d VIOL, %d DRIFT, %d process death(s), harness %.1fs, validation %.1fs" % (
         prop, name, profile, len(drivers), val["events"], len(viol), len(drift), died, t_h, t_v))
     with open(cfile, "w") as f:
